@@ -4,6 +4,7 @@ pub mod api;
 #[macro_use]
 pub mod engine;
 pub mod gen;
+pub mod pinned;
 pub mod props;
 pub mod r1cs_lang;
 pub mod recipe;
